@@ -411,3 +411,21 @@ ADDED16 = {
 for _pid, _extra in ADDED16.items():
     t, text, note, ref = CLAIMED[_pid]
     CLAIMED[_pid] = (t, text + _extra, note, ref)
+
+ADDED17 = {
+ "C02": " Round 17: the encoders (base64, base32, hex) are among the packages asked whether they write through a byte-slice parameter.",
+ "C03": " Round 17: no struct that carries a LispError inside is boxed into an error (C03.one-error-type); what the body goroutine of a future delivers is what applying its function returned (C10.outcome-own as C03.future-outcome-own).",
+ "C05": " Round 17: a shift by a signed count not known to be non-negative is a may-panic site.",
+ "C09": " Round 17: an entry assoc'ed twice with different values in one function of a header is a placeholder readers can take for the result (C09.lisp-monotone).",
+ "C10": " Round 17: the outcome sent is a result of the application (C10.outcome-own); the cancellation depends on the Done flag alone (C10.cancel-atomic).",
+ "C11": " Round 17: a locking method called through the scope interface under a scope lock must be on the holder's outer scope (C11.order); C09.version-width adopted.",
+ "C12": " Round 17: def binds exactly the value it evaluated (C01.def as C12.def-verbatim).",
+ "C13": " Round 17: the variable the adapter's recover barrier writes is the closure's own error result (C20.siblings, adopted).",
+ "C16": " Round 17: a nil answer without error is a success of a collection reader too (C16.matched); a round of the REPL that neither keeps the line nor hands the input to the reader, and a way out of its loop, lie behind the line reader's error only (C16.repl-reset).",
+ "C17": " Round 17: the runner of the try body counts as nested evaluation for the re-positioning rule (C17.carrier).",
+ "C19": " Round 17: C03.lisp-handlers and C15.format adopted (C19.caught-lisp-handlers, C19.preamble-format).",
+ "C20": " Round 17: the recover barrier writes the closure's named error result; a function selected through the adapter variable must be one of the three result adapters (C20.siblings).",
+}
+for _pid, _extra in ADDED17.items():
+    t, text, note, ref = CLAIMED[_pid]
+    CLAIMED[_pid] = (t, text + _extra, note, ref)
